@@ -460,3 +460,10 @@
 ; set by every call of GetFastNode / GetImmutable to "the call returned an error"
 ;@ghost fnfail Bool
 ;@ghost immfail Bool
+
+; avlT: every inner node's children differ in height by at most one (C11)
+(define-fun-rec avlT ((t T)) Bool
+  (ite ((_ is Inner) t)
+       (and (avlT (i_left t)) (avlT (i_right t)) (<= (- 1) (balf t)) (<= (balf t) 1))
+       true))
+;@specfn avlT : T -> Bool
